@@ -215,6 +215,7 @@ func (vc *VC) envEntry() *cenv {
 			continue
 		}
 		ce.vars[name] = cval{t: vc.val[p], typ: p.Type()}
+		ce.vars[name+"0"] = ce.vars[name]
 	}
 	return ce
 }
@@ -326,7 +327,7 @@ func (vc *VC) nonNilInit(ref Term, t types.Type, al *ssa.Alloc, pos token.Pos) {
 		if txt == "" {
 			txt = vc.e.typeName(t)
 		}
-		vc.check("nonnil-init", pos, key+" of "+txt, Not(vc.isNil(cur, f.Type())), vc.safetyProps())
+		vc.check("nonnil-init", pos, key+" of "+txt, Not(vc.isNil(cur, f.Type())), append(append([]string{}, vc.safetyProps()...), vc.e.cs.NonNilFieldProps[key]...))
 	}
 }
 
@@ -876,6 +877,33 @@ func (vc *VC) loopHeader(b *ssa.BasicBlock, inEdges []Term, inPreds []*ssa.Basic
 	props := vc.safetyProps()
 	if vc.con != nil && len(vc.con.Props) > 0 {
 		props = vc.con.Props
+	}
+	if ls != nil && ls.NoBreak != nil {
+		// no `break`: an exit of the natural loop from a block other than the header must not lead to
+		// the block the header exits to (a `return` in the body is allowed)
+		var done *ssa.BasicBlock
+		for _, s := range b.Succs {
+			if !vc.loopBlks[h][s.Index] {
+				done = s
+			}
+		}
+		cond, pos := Term("true"), token.NoPos
+		for _, lb := range vc.fn.Blocks {
+			if !vc.loopBlks[h][lb.Index] || lb.Index == h {
+				continue
+			}
+			for _, s := range lb.Succs {
+				if !vc.loopBlks[h][s.Index] && s == done {
+					cond = "false"
+					pos = lastPos(lb)
+				}
+			}
+		}
+		pr := ls.NoBreak.Props
+		if len(pr) == 0 {
+			pr = props
+		}
+		vc.checkG("loop-complete", pos, "no break in loop "+ls.Key, "true", cond, pr)
 	}
 	if ls != nil && ls.Complete != nil {
 		// exits of the natural loop must leave from the header (the range / condition is exhausted);
@@ -1454,6 +1482,13 @@ func (vc *VC) matchesBodyCall(ins ssa.Instruction, fn string) bool {
 	c, ok := ins.(*ssa.Call)
 	if !ok {
 		return false
+	}
+	if strings.HasPrefix(fn, "iface:") {
+		// "iface:T.m": a dynamic call of method m on a value of interface type T
+		if !c.Call.IsInvoke() {
+			return false
+		}
+		return "iface:"+vc.e.typeName(c.Call.Value.Type())+"."+c.Call.Method.Name() == fn
 	}
 	if bi, ok := c.Call.Value.(*ssa.Builtin); ok && bi.Name() == fn {
 		return true
